@@ -82,11 +82,11 @@ var (
 	Groups  = map[string]*Group{}
 )
 
-// AddressSpaceLimit is the RLIMIT_AS of a child: a runaway allocation kills the child (attributed
-// through the journal) instead of the sandbox. 4 GiB leaves room for every legitimate allocation
-// (largest deliberate cap in the code base: 256 MiB linked-log record) and keeps the cost of zeroing
-// huge successful allocations low.
-const AddressSpaceLimit = 4 << 30
+// AddressSpaceLimit is the head-room RLIMIT_AS leaves a child above what it maps before the first
+// case: a runaway allocation kills the child (attributed through the journal) instead of the
+// sandbox. 2 GiB leaves room for every legitimate allocation (largest deliberate cap in the code
+// base: 256 MiB linked-log record) and keeps the cost of zeroing huge successful allocations low.
+const AddressSpaceLimit = 2 << 30
 
 // DefaultAllocLimit: 256 MiB for inputs up to 1 MiB (the largest legitimate constant of the code
 // base is the 32 MiB CAR section cap), plus 64 bytes per input byte beyond that.
@@ -444,6 +444,17 @@ type resLine struct {
 	Ms    int       `json:"ms,omitempty"` // only when the case took more than 100 ms (diagnostic, never a verdict)
 }
 
+// vmSize returns the current virtual size of the process in bytes.
+func vmSize() uint64 {
+	b, err := os.ReadFile("/proc/self/statm")
+	if err != nil {
+		return 0
+	}
+	var pages uint64
+	fmt.Sscanf(string(b), "%d", &pages)
+	return pages * uint64(os.Getpagesize())
+}
+
 func readSyscalls() int64 {
 	b, err := os.ReadFile("/proc/self/io")
 	if err != nil {
@@ -469,14 +480,6 @@ func ChildLoop(spec ChildSpec) error {
 		return fmt.Errorf("c12kit: unknown group %q", spec.Group)
 	}
 	runtime.MemProfileRate = 16 << 20
-	if !spec.NoRlimit && !RaceEnabled {
-		as := uint64(AddressSpaceLimit)
-		if spec.RlimitBytes > 0 {
-			as = spec.RlimitBytes
-		}
-		lim := syscall.Rlimit{Cur: as, Max: as}
-		_ = syscall.Setrlimit(syscall.RLIMIT_AS, &lim)
-	}
 	jf, err := os.OpenFile(spec.Journal, os.O_CREATE|os.O_WRONLY|os.O_APPEND, 0o644)
 	if err != nil {
 		return err
@@ -493,6 +496,20 @@ func ChildLoop(spec ChildSpec) error {
 		cases = g.Gen(spec.FixDir)
 	}
 	journal(fmt.Sprintf("N %d\n", len(cases)))
+	// The address-space limit is applied AFTER the case list exists and on top of what the process
+	// already maps (binary, runtime reservations, case list): the head-room is what the code under
+	// test may allocate.
+	if !spec.NoRlimit && !RaceEnabled {
+		as := uint64(AddressSpaceLimit)
+		if spec.RlimitBytes > 0 {
+			as = spec.RlimitBytes
+		}
+		runtime.GC()
+		vs := vmSize()
+		journal(fmt.Sprintf("V %d\n", vs))
+		lim := syscall.Rlimit{Cur: vs + as, Max: vs + as}
+		_ = syscall.Setrlimit(syscall.RLIMIT_AS, &lim)
+	}
 	lim := g.AllocLimit
 	if lim == nil {
 		lim = DefaultAllocLimit
@@ -557,6 +574,13 @@ func ChildLoop(spec ChildSpec) error {
 		}
 		b, _ := json.Marshal(rl)
 		journal("R " + string(b) + "\n")
+		for _, st := range s.steps {
+			if st.Kind == "alloc" && st.Alloc > 1<<30 {
+				// the heap address space never shrinks: continue in a fresh process
+				journal("X\n")
+				return nil
+			}
+		}
 	}
 	journal("D\n")
 	return nil
@@ -721,6 +745,18 @@ func FuncFromDump(dump string, wantMarker string, outermost bool) (entry, fn str
 	return "?", "?"
 }
 
+var reCannotAlloc = regexp.MustCompile(`cannot allocate (\d+)-byte block`)
+
+// RefusedAllocation returns the size of the allocation the runtime could not satisfy (0 = unknown).
+func RefusedAllocation(out string) uint64 {
+	m := reCannotAlloc.FindStringSubmatch(out)
+	if m == nil {
+		return 0
+	}
+	v, _ := strconv.ParseUint(m[1], 10, 64)
+	return v
+}
+
 // FatalClass normalises the first fatal line of a crash log.
 //   - an allocation the address-space limit refused is the same failure class as an allocation the
 //     meter flags ("alloc-out-of-proportion": allocation sized by untrusted input);
@@ -870,7 +906,7 @@ func (r *Runner) violate(c *Case, step, entry, class, fn, detail string) {
 
 // retryAlone re-executes one case in a fresh child. It returns true when the retry produced a verdict
 // (violations recorded from its journal, or a clean pass recorded as inconclusive).
-func (r *Runner) retryAlone(c *Case, step, firstOut string) bool {
+func (r *Runner) retryAlone(c *Case, step, firstOut string, pressure bool) bool {
 	jp := filepath.Join(ev.Scratch(), "c12journal", fmt.Sprintf("%s-%d-retry-%d.journal", r.Group, os.Getpid(), r.deaths))
 	os.MkdirAll(filepath.Dir(jp), 0o755)
 	os.Remove(jp)
@@ -892,7 +928,10 @@ func (r *Runner) retryAlone(c *Case, step, firstOut string) bool {
 				n++
 			}
 		}
-		if n == 0 {
+		if n == 0 && pressure {
+			// the case is fine on its own: the first death was the child running out of address space
+			r.Rec.Count("restarts_after_memory_pressure", 1)
+		} else if n == 0 {
 			r.inconc++
 			r.Rec.Inconclusive(fmt.Sprintf("%s: the child died once in step %s on input %q (sha256/8 %s) without a Go stack and the case passed when executed alone: %s", r.Group, step, c.Label, sha(c.In), trunc(firstOut, 300)))
 		}
@@ -965,6 +1004,7 @@ func (r *Runner) Run() {
 	}
 	start := 0
 	spawns := 0
+	earlyDeaths := 0
 	journalDir := filepath.Join(ev.Scratch(), "c12journal")
 	os.MkdirAll(journalDir, 0o755)
 	for start < len(cases) && !r.enough() {
@@ -1030,6 +1070,10 @@ func (r *Runner) Run() {
 		if _, finished := st.results[bad]; finished || bad < start {
 			// died between cases or before the first one
 			if bad < start {
+				earlyDeaths++
+				if earlyDeaths <= 2 {
+					continue
+				}
 				r.Rec.Inconclusive(fmt.Sprintf("%s: child died before executing a case (exit %v, timed out %v): %s", r.Group, exitErr, timedOut, trunc(out, 1500)))
 				r.inconc++
 				// cannot make progress reliably
@@ -1056,10 +1100,23 @@ func (r *Runner) Run() {
 		default:
 			class := FatalClass(out)
 			en, fn := FuncFromDump(out, "", false)
-			if fn == "?" || class == "fatal:process-death" {
-				// a death without a Go stack (e.g. a C thread aborting under the address-space limit):
-				// execute the case once more alone, in a fresh child, to obtain an attributable observation
-				if r.retryAlone(c, step, out) {
+			pressure := false
+			if class == "alloc-out-of-proportion" {
+				// sound only if the allocation the runtime refused is itself beyond the limit of the step;
+				// otherwise the child may simply have been short of address space (harness footprint,
+				// heap left over from earlier hostile cases)
+				lim := DefaultAllocLimit
+				if g.AllocLimit != nil {
+					lim = g.AllocLimit
+				}
+				if RefusedAllocation(out) <= lim(step, len(c.In)) {
+					pressure = true
+				}
+			}
+			if pressure || fn == "?" || class == "fatal:process-death" {
+				// not attributable as it stands (no Go stack, e.g. a C thread aborting under the address-space
+				// limit, or a small allocation refused): execute the case once more alone, in a fresh child
+				if r.retryAlone(c, step, out, pressure) {
 					start = bad + 1
 					continue
 				}
